@@ -1,4 +1,5 @@
 import json
+import gfapy
 from copy import deepcopy
 
 class Cloning:
@@ -21,6 +22,10 @@ class Cloning:
     for k,v in self._data.items():
       if k in self.__class__.REFERENCE_FIELDS:
         data_cpy[k] = self.field_to_s(k)
+      elif isinstance(v, gfapy.FieldArray):
+        data_cpy[k] = gfapy.FieldArray(v.datatype, deepcopy(v._data))
+      elif isinstance(v, gfapy.OrientedLine):
+        data_cpy[k] = gfapy.OrientedLine(v.name, v.orient)
       elif self._field_datatype(k) == "J":
         data_cpy[k] = json.loads(json.dumps(v))
       elif isinstance(v, list) or isinstance(v, str):
